@@ -3,6 +3,7 @@
 // over the same base, and a full observation of both worlds.
 //
 // Lines per case (see wire.go for the encodings):
+//   reset                             => ok               a new world starts
 //   base <feature>                    => ok|err           the shared base world
 //   addtag <id> <key>=<value>         => ok|err           history on the edited world
 //   rmtag <id> <key>                  => ok|err
@@ -255,7 +256,9 @@ func randAnyValue(r *hx.Rand, c *hx.Ctx) string {
 		n := r.Intn(4)
 		as := make([]string, n)
 		for i := range as {
-			as[i] = randAtom(r, c)
+			// (the %f rendering of a float inside a list is not modelled)
+			for as[i] = randAtom(r, c); strings.HasPrefix(as[i], "f:"); as[i] = randAtom(r, c) {
+			}
 		}
 		c.Note(fmt.Sprintf("val:anylist%d", n))
 		return "l:" + strings.Join(as, "|")
@@ -278,7 +281,12 @@ func errAns(err error) string {
 	return "ok"
 }
 
-func newCase(c *hx.Ctx) *Case { return &Case{c: c, base: ingest.NewBasicMutableWorld()} }
+// newCase starts a world; `reset` tells the driver to forget the previous one (the corpus runs several
+// worlds inside one case block).
+func newCase(c *hx.Ctx) *Case {
+	c.Op("reset", "ok")
+	return &Case{c: c, base: ingest.NewBasicMutableWorld()}
+}
 
 func (k *Case) Base(f Feat) {
 	ans := hx.Recover(func() string { return errAns(k.base.AddFeature(f.Build())) })
@@ -852,7 +860,7 @@ func (k *Case) StandardBase(r *hx.Rand, vary bool) {
 		k.Base(pointFeat(id, posOf(id, v()), tags(2)...))
 	}
 	k.Base(pointFeat(5, posOf(5, v()))) // a point with its location only (not indexed)
-	k.Base(pointFeat(6, posOf(6, v()), append([]Tag{{"name", sv("six")}}, tags(2)...)...))
+	k.Base(pointFeat(6, posOf(6, v()), append([]Tag{{"ref", sv("six")}}, tags(2)...)...))
 	k.Base(pathFeat(1007, idAtoms(1, 2, 3, 4, 1), tags(2)...))
 	k.Base(pathFeat(1008, []string{idAtom(2), pAtom([2]int{515364001, -1246003}), idAtom(6)}, tags(2)...))
 	k.Base(Feat{ID: 2009, Body: "a:i1007", Tags: tags(2)})
@@ -863,6 +871,7 @@ func (k *Case) StandardBase(r *hx.Rand, vary bool) {
 
 // ---- random features ------------------------------------------------------------------------
 
+var baseIDs = []int{1, 2, 3, 4, 5, 6, 1007, 1008, 2009, 3010, 4011}
 var pointIDs = []int{1, 2, 3, 4, 5, 6, 21, 22, 23}
 var pathIDs = []int{1007, 1008, 1024, 1025}
 var areaIDs = []int{2009, 2026, 2027}
@@ -967,19 +976,40 @@ func runCase(c *hx.Ctx) {
 		nops = 30 + r.Intn(120)
 	}
 	tricky := false
+	// profile: 0 = mostly tag edits (plain keys: modified-tag documents), 1 = mostly features, 2 = mixed
+	profile := r.Intn(3)
+	c.Note(fmt.Sprintf("profile:%d", profile))
+	tagID := func() int {
+		if r.Chance(3, 4) {
+			return baseIDs[r.Intn(len(baseIDs))]
+		}
+		return randID(r)
+	}
+	tagKey := func() string {
+		if profile == 0 && r.Chance(2, 3) {
+			return r.Pick(plainKeys)
+		}
+		return r.Pick(allKeys)
+	}
 	for i := 0; i < nops; i++ {
-		switch x := r.Intn(20); {
-		case x < 7:
-			id := randID(r)
-			key := r.Pick(allKeys)
+		x := r.Intn(20)
+		addtag, rmtag := 7, 11
+		switch profile {
+		case 0:
+			addtag, rmtag = 11, 17
+		case 1:
+			addtag, rmtag = 3, 5
+		}
+		switch {
+		case x < addtag:
 			v := randValue(r, c)
 			if !strings.HasPrefix(v, "s:") || len(v) > 12 {
 				tricky = true
 			}
-			k.AddTag(id, Tag{key, v})
+			k.AddTag(tagID(), Tag{tagKey(), v})
 			c.Note("op:addtag")
-		case x < 11:
-			k.RemoveTag(randID(r), r.Pick(allKeys))
+		case x < rmtag:
+			k.RemoveTag(tagID(), tagKey())
 			c.Note("op:rmtag")
 		default:
 			f := randFeature(r, c)
